@@ -72,13 +72,15 @@ func genC20(r *gen.Rand) *C20Case {
 	put("-dash.yaml", map[string]any{"dash": 1})
 	put("p.yaml", map[string]any{"base": true})
 	put("p.q.yaml", map[string]any{"top": 1}) // its parent p.yaml is the target of some faults
+	// a file argument that is a symbolic link to a layer (it inherits from its target's name)
+	w.Links = append(w.Links, procsim.Link{Path: c20Dir + "/lnk.yaml", Target: "a.b.yaml"}, procsim.Link{Path: c20Dir + "/d/up.json", Target: "../c.json"})
 	raw("broken.yaml", "a: [1, 2\n")
 	raw("notes.txt", "a.yaml\n")
 	raw("x.ini", "[x]\n")
 	raw("plain", "words\n")
 	// argument vector
 	good := []string{"a.yaml", "a.b.yaml", "c.json", "d/e.yaml", "t.toml", "./a.b.yaml", "d/../c.json", "./d/e.yaml", "p.q.yaml", "p.q.json", "big.yaml", "big.json",
-		"d/c.json", "d2/e.yaml", "d2/e.json", "d/c.yaml", "d2/a.b.yaml", "x,y.yaml", "x,y.json", "sp ace.yaml", "uni-é.json", "uni-é.yaml", "eq=ual.yaml", "semi;colon.json", "-dash.yaml"}
+		"d/c.json", "d2/e.yaml", "d2/e.json", "d/c.yaml", "d2/a.b.yaml", "x,y.yaml", "x,y.json", "sp ace.yaml", "uni-é.json", "uni-é.yaml", "eq=ual.yaml", "semi;colon.json", "-dash.yaml", "lnk.yaml", "lnk.json", "d/up.json", "d/up.yaml"}
 	virtual := []string{"a.b.json", "c.yaml", "a.toml", "d/e.json", "c.yml", "a.b.jsonl"}
 	failing := []string{"bad.yaml", "bad2.json", "broken.yaml", "bad.json", "bad3.yaml", "bad3.json"}
 	pass := []string{"apply", "get", "-f", "-v", "--dry-run", "--opt=value", "--file=a.b.yaml", "-o=c.json", "notes.txt", "x.ini", "plain",
@@ -87,11 +89,19 @@ func genC20(r *gen.Rand) *C20Case {
 		"a.yaml,c.json", "a.b.yaml,notes.txt,c.json", "a.yaml:c.json", "a.yaml c.json", "a.yaml;c.json", "c.json=a.yaml", "@a.yaml", "file://a.yaml", "a.yaml,", ",a.yaml", "a.yaml\tc.json", "a.yaml\n"}
 	n := r.Range(0, 8)
 	failP := gen.PickAny(r, []float64{0, 0, 0.08, 0.25})
+	goodP := 0.3
+	if r.Chance(0.06) {
+		// well beyond the usual handful: `kubectl apply -f a -f b -f c ...`
+		// over a directory's worth of files (more than any batch or pool size)
+		n = r.Range(9, 40)
+		goodP = 0.7
+		failP = gen.PickAny(r, []float64{0, 0, 0.03})
+	}
 	for i := 0; i < n; i++ {
 		switch {
 		case r.Chance(failP):
 			c.Args = append(c.Args, gen.PickAny(r, failing))
-		case r.Chance(0.3):
+		case r.Chance(goodP):
 			c.Args = append(c.Args, gen.PickAny(r, good))
 		case r.Chance(0.2):
 			c.Args = append(c.Args, gen.PickAny(r, virtual))
